@@ -17,6 +17,7 @@ inductive HOp where
   | call (e : Entry) (arrivals : List Frame)
   | unlock (level : Int) (seedParams : Bytes) (arr1 arr2 : List Frame)
   | enterSpr (waitNrc : Bool)       -- `with client.suppress_positive_response(wait_nrc=…):`
+  | enterSprBare                    -- `with client.suppress_positive_response:` (the object is not called: wait_nrc keeps its value)
   | exitSpr                         -- leaving the block, normally or by exception (`__exit__`)
   | enterOvr (m : Modifier)         -- `with client.payload_override(m):`
   | exitOvr
@@ -46,6 +47,7 @@ def hstep (s : HState) : HOp → HState × HOut
     let rxq' := if r.log.isEmpty then s.rxq else []
     ({ s with rxq := rxq' }, { outer := some (deliver s.sw r.inner), log := r.log, algoCalls := r.algoCalls })
   | .enterSpr w => ({ s with cs := { s.cs with spr := ⟨true, w⟩ } }, {})
+  | .enterSprBare => ({ s with cs := { s.cs with spr := ⟨true, s.cs.spr.waitNrc⟩ } }, {})
   | .exitSpr => ({ s with cs := { s.cs with spr := ⟨false, false⟩ } }, {})
   | .enterOvr m => ({ s with cs := { s.cs with override := some m } }, {})
   | .exitOvr => ({ s with cs := { s.cs with override := none } }, {})
